@@ -117,6 +117,18 @@ def numTextOk (x : Num) : Bool :=
 /-- …for every number leaf of the payload -/
 def Payload.numTextsOk (p : Payload) : Bool := p.nums.all numTextOk
 
+/-! ### the carrier of the compound-member order -/
+
+/-- both hash texts are computed and they differ -/
+def Payload.hashDiffer (e : Ty) (a b : Payload) : Bool :=
+  match Value.hashBytesP e a, Value.hashBytesP e b with
+  | .ok x, .ok y => x != y
+  | _, _ => false
+
+/-- any two members are `RawEquals` or have different hash texts (no `Less` tie) -/
+def Payload.tieFree (e : Ty) (l : List Payload) : Bool :=
+  l.all fun a => l.all fun b => rawB e a b || Payload.hashDiffer e a b
+
 /-! ### capsule types -/
 
 /-- The operations of a capsule type that `Equals`, `RawEquals` and the set hash
